@@ -38,7 +38,7 @@ REQUIRED_THEOREMS = [
     "Acn.C10.run_equivariant_stations_partial", "Acn.C10.body_shift", "Acn.C10.run_shift_partial",
     "Acn.C10.updateSchedules_shift",
 ]
-BUDGET = {"quick": 200, "thorough": 2000, "search": 1200}
+BUDGET = {"quick": 200, "thorough": 1600, "search": 1200}
 TRUSTED = ["CPython heapq / sorted (stable) / dict insertion order; numpy `@`, `sum`, `abs` (a changed summation "
            "order may move a double by an ulp: numbers are compared with 1e-9 slack, bitwise on the dyadic stream)",
            "PYTHONHASHSEED nondeterminism is explored with three seeds per scenario, not proved absent",
